@@ -463,6 +463,35 @@ def records(data: Any) -> dict[str, dict[str, Any]]:
     return {r['tag']: r for r in rec}
 
 
+def seqpam_workflow(case: dict[str, Any], model: MachineModel) -> list[BasePass]:
+    """compile.py's own two-stage SeqPAM workflow
+    (build_seqpam_mapping_optimization_workflow: permutation-aware routing on
+    the all-to-all relaxation, then ApplyPlacement + PAM layout + PAM routing
+    on the real graph), preceded by SetModelPass. The only additions are
+    recorders: at the start, after the first routing stage and at the end."""
+    from bqskit.compiler.compile import build_seqpam_mapping_optimization_workflow
+    from bqskit.compiler.workflow import Workflow
+    from bqskit.passes.control.ifthenelse import IfThenElsePass
+    from bqskit.passes.mapping.routing.pam import PAMRoutingPass
+    from bqskit.passes.mapping.setmodel import SetModelPass
+    wf = build_seqpam_mapping_optimization_workflow(
+        int(case.get('optimization_level', 3)), float(case['eps']),
+        int(case.get('num_layout_passes', 3)), int(case['block_size']),
+    )
+    outer = list(wf)
+    assert len(outer) == 1 and isinstance(outer[0], IfThenElsePass)
+    ite = outer[0]
+    inner = list(ite.on_true)
+    k = next(i for i, p_ in enumerate(inner) if isinstance(p_, PAMRoutingPass))
+    inner.insert(k + 1, RecordPass('stage1'))
+    on_false = list(ite.on_false) if ite.on_false is not None else None
+    return [
+        RecordPass('input', with_circuit=True), SetModelPass(model),
+        IfThenElsePass(ite.condition, Workflow(inner), on_false),
+        RecordPass('final'),
+    ]
+
+
 # --------------------------------------------------------------- workflows
 SABRE_KEYS = (
     'decay_delta', 'decay_reset_interval', 'decay_reset_on_gate',
